@@ -20,6 +20,10 @@ for d in sorted(glob.glob(os.path.join(VERIF, 'seeded', '*'))):
         continue
     if os.path.exists(os.path.join(d, 'MISSED')):
         continue  # recorded as not detected (see DESIGN.md): kept for reference, not a canary
+    if meta.get('kind') == 'harmless':
+        # a behaviour-preserving refactoring written by a sub-agent: no alarm allowed
+        corpus.append({'id': 'seeded-' + os.path.basename(d), 'prop': meta['property'], 'patch': os.path.join(d, 'patch.diff'), 'harmless': 'patch'})
+        continue
     corpus.append({'id': 'seeded-' + os.path.basename(d), 'prop': meta['property'], 'patch': os.path.join(d, 'patch.diff'), 'expect': '.'})
 # harmless edits: must NOT raise an alarm (every line of every source file shifted by a comment block)
 props_all = sorted({e['prop'] for e in corpus})
